@@ -6,7 +6,7 @@ import ast
 
 from ..astutil import (
     attr_stores, call_name, calls_in, dotted, enclosing_withs, guard_atoms, lexical_guards, name_stores,
-    names_in, test_atoms, unparse, walk_local,
+    names_in, own_exprs, test_atoms, unparse, walk_local,
 )
 from ..cfg import no_exc
 from ..report import Registry, sub, chain
@@ -894,9 +894,10 @@ FAIRY_REF_WRITERS = {
 }
 
 
-@R.rule("C25-R6", floor=11, template="T-OWN/T-GUARD",
+@R.rule("C25-R6", floor=18, template="T-OWN/T-GUARD/T-PATH",
         desc="_ConnectionRecord.fairy_ref is written only by checkout / checkin / detach / __init__; "
-             "checkin refuses a second check-in before _return_conn and clears fairy_ref first; the weakref "
+             "checkin refuses a second check-in before _return_conn and clears fairy_ref first; no function of "
+             "pool/base.py writes a record after handing it back (_return_conn / checkin / _checkin_failed); the weakref "
              "callback hands its own weakref to the finalizer, which acts on the record on the gc path only "
              "behind `record.fairy_ref is ref` (the collected fairy still owns the record)")
 def r6(ctx):
@@ -974,7 +975,95 @@ def r6(ctx):
     ctx.check(bool(clears) and w is None, f.key + ":clear-before-return",
               "_return_conn() can run before fairy_ref is cleared (a concurrent finalizer would check the record in again)",
               "fairy_ref = None precedes _return_conn", f.loc, w)
+    _no_touch_after_hand_back(ctx)
     _gc_ownership(ctx)
+
+
+# Once a record has been handed back (Pool._return_conn / _do_return_conn, or the record's own checkin() /
+# _checkin_failed(), which end in it) it sits in the queue and another thread may already have checked it out:
+# the thread that returned it no longer owns it.  So on every normal path after the hand-back call the function
+# does not write the record any more -- no attribute store / del / item store on it, no call of one of its
+# methods or of a method of one of its attributes (reads and logging are harmless).  Every ownership field is
+# therefore written BEFORE the hand-back (`fairy_ref = None` in checkin: ":clear-before-return" above is the
+# must-precede half, this is the must-not-follow half, for every hand-back site of pool/base.py).
+HAND_BACK = ("_return_conn", "_do_return_conn", "checkin", "_checkin_failed")
+
+
+def _hand_back_call(c):
+    """(callee, dotted text of the record handed back) for a hand-back call, else None."""
+    nm = call_name(c) or ""
+    recv, _, last = nm.rpartition(".")
+    if last not in HAND_BACK or not recv or recv.endswith("dispatch") or "()" in recv:
+        return None
+    if last in ("_return_conn", "_do_return_conn"):
+        if len(c.args) != 1 or c.keywords:
+            return None
+        return last, dotted(c.args[0])
+    return last, recv
+
+
+def _touches(part, obj):
+    """Writes to / calls on `obj` (dotted) evaluated inside the AST fragment `part`."""
+    pre = obj + "."
+    out = []
+    for x in ast.walk(part):
+        if isinstance(x, ast.Attribute) and isinstance(x.ctx, (ast.Store, ast.Del)) and (dotted(x) or "").startswith(pre):
+            out.append(x)
+        elif isinstance(x, ast.Subscript) and isinstance(x.ctx, (ast.Store, ast.Del)) and (dotted(x.value) or "").startswith(pre):
+            out.append(x)
+        elif isinstance(x, ast.Call):
+            nm = call_name(x) or ""
+            if nm.startswith(pre) and not _is_log(nm):
+                out.append(x)
+    return out
+
+
+def _no_touch_after_hand_back(ctx):
+    m = ctx.index.module(POOL)
+    funcs = [f for f in ctx.index.all_functions(m) if not f.type_only and not f.is_overload]
+    direct = {f.key for f in funcs if any(_hand_back_call(c) for c in calls_in(f.node))}
+    helper_names = {k.rsplit(".", 1)[-1].rsplit("::", 1)[-1] for k in direct} - set(HAND_BACK)
+    n_sites = 0
+    for f0 in funcs:
+        if f0.key not in direct and not any((call_name(c) or "").rsplit(".", 1)[-1] in helper_names for c in calls_in(f0.node)):
+            continue
+        f = _nf(ctx, f0, *HAND_BACK, alias="dotted")
+        g = ctx.cfg(f)
+        sites = []
+        for n in g.nodes:
+            for c in _own_calls(n):
+                hb = _hand_back_call(c)
+                if hb is not None:
+                    sites.append((n.id, c, hb[0], hb[1]))
+        if not sites:
+            continue
+        bad, w = [], None
+        for nid, c, callee, obj in sites:
+            ctx.require(obj is not None, f"{f.key}: cannot name the record handed back by `{unparse(c)}`")
+            head = obj.split(".")[0]
+            rebind = [x.id for x in g.nodes if x.stmt is not None and x.kind in ("stmt", "for", "with_enter", "handler")
+                      and any(isinstance(y, ast.Name) and y.id == head and isinstance(y.ctx, (ast.Store, ast.Del))
+                              for part in ([x.stmt] if x.kind == "stmt" else own_exprs(x.stmt)) for y in ast.walk(part))]
+            after = g.reachable([b for b, lab in g.succ[nid] if lab != "exc"], avoid=rebind, edge_ok=no_exc)
+            for a in sorted(after):
+                x = g.nodes[a]
+                if x.stmt is None or x.kind in ("with_exit", "handler", "join", "entry", "exit", "raise_exit"):
+                    continue
+                parts = [x.stmt] if x.kind == "stmt" else own_exprs(x.stmt) if isinstance(x.stmt, ast.stmt) else []
+                ts = [t for part in parts for t in _touches(part, obj)]
+                if ts:
+                    bad.append(f"line {ts[0].lineno}: `{unparse(ts[0])}` after `{unparse(c.func)}(...)`")
+                    w = w or g.witness([nid], [a], edge_ok=no_exc)
+        n_sites += 1
+        ctx.check(not bad, f.key + ":no-touch-after-hand-back",
+                  "the record is still written after it has been handed back to the pool -- " + "; ".join(sorted(set(bad))) +
+                  ": once it is in the queue another thread can check it out (and e.g. publish its own fairy_ref), which "
+                  "this write then clobbers: the record looks checked in while a holder uses it (handed to two holders / "
+                  "never returned)",
+                  f"nothing writes the record after {', '.join(sorted({s[2] for s in sites}))}()", f.loc,
+                  g.describe_path(w) if w else None)
+    ctx.require(n_sites >= 5, f"only {n_sites} function(s) of {POOL} hand a record back; expected checkin, _checkin_failed, "
+                              "checkout, _finalize_fairy, _checkout, detach, Pool._return_conn")
 
 
 # A weakref callback can fire long after its fairy stopped owning the record (detach(), a failed
@@ -1432,3 +1521,48 @@ R.mutant("rob-checkin-refusal-nested-ifs-wrong-switch-sense", POOL,
 R.mutant("benign-rob-checkedout-through-locals", IMPL,
          sub("        return self._pool.maxsize - self._pool.qsize() + self._overflow\n",
              "        queue = self._pool\n        idle = queue.qsize()\n        return queue.maxsize - idle + self._overflow\n"), None)
+
+# ---------------------------------------------------------------------- str2-j: round-2 seeds (C25_3, C25_4)
+# --- C25-R6: the record is not written after it was handed back
+_CHECKIN_TAIL = ("        if pool.dispatch.checkin:\n            pool.dispatch.checkin(connection, self)\n\n        pool._return_conn(self)\n")
+R.mutant("seed4-checkin-clears-fairy-ref-after-return", POOL,
+         chain(sub("            return\n        self.fairy_ref = None\n        connection = self.dbapi_connection\n", "            return\n        connection = self.dbapi_connection\n"),
+               sub(_CHECKIN_TAIL, _CHECKIN_TAIL + "        self.fairy_ref = None\n")), "C25-R6")
+# fairy_ref is cleared in time, but another field of the record is still written after the hand-back
+R.mutant("checkin-writes-record-after-return", POOL,
+         sub(_CHECKIN_TAIL, _CHECKIN_TAIL + "        self.fresh = False\n"), "C25-R6")
+R.mutant("checkin-after-return-helper", POOL,
+         chain(sub(_CHECKIN_TAIL, _CHECKIN_TAIL + "        self._mark_returned()\n"),
+               sub("    def checkin(self, _fairy_was_created: bool = True) -> None:\n",
+                   "    def _mark_returned(self) -> None:\n        self.finalize_callback.clear()\n\n"
+                   "    def checkin(self, _fairy_was_created: bool = True) -> None:\n")), "C25-R6")
+R.mutant("checkin-failed-invalidates-after-checkin", POOL,
+         sub("        self.invalidate(e=err)\n        self.checkin(\n            _fairy_was_created=_fairy_was_created,\n        )\n",
+             "        self.checkin(\n            _fairy_was_created=_fairy_was_created,\n        )\n        self.invalidate(e=err)\n"), "C25-R6")
+R.mutant("detach-writes-record-after-return", POOL,
+         sub("            rec.fairy_ref = None\n            rec.dbapi_connection = None\n            # TODO: should this be _return_conn?\n"
+             "            self._pool._do_return_conn(self._connection_record)\n",
+             "            rec.fairy_ref = None\n            # TODO: should this be _return_conn?\n"
+             "            self._pool._do_return_conn(self._connection_record)\n            self._connection_record.dbapi_connection = None\n"), "C25-R6")
+R.mutant("benign-checkin-log-after-return", POOL,
+         sub(_CHECKIN_TAIL, _CHECKIN_TAIL + "        pool.logger.debug(\"Connection %r returned to pool\", connection)\n"), None)
+R.mutant("benign-checkin-hand-back-helper", POOL,
+         chain(sub(_CHECKIN_TAIL, _CHECKIN_TAIL.replace("        pool._return_conn(self)\n", "        self._hand_back(pool)\n")),
+               sub("    def checkin(self, _fairy_was_created: bool = True) -> None:\n",
+                   "    def _hand_back(self, pool: Pool) -> None:\n        pool._return_conn(self)\n\n"
+                   "    def checkin(self, _fairy_was_created: bool = True) -> None:\n")), None)
+R.mutant("benign-detach-return-through-local", POOL,
+         sub("            self._pool._do_return_conn(self._connection_record)\n", "            owner = self._pool\n            owner._do_return_conn(rec)\n"), None)
+R.mutant("benign-checkin-failed-reads-after-checkin", POOL,
+         sub("        self.checkin(\n            _fairy_was_created=_fairy_was_created,\n        )\n",
+             "        self.checkin(\n            _fairy_was_created=_fairy_was_created,\n        )\n"
+             "        self.__pool.logger.debug(\"record %r checked in after %r\", self, err)\n"), None)
+# --- C25-R4 / seed 3: the timed wait loop of Queue.get turned into a single wait
+R.mutant("seed3-get-timed-wait-once", QUEUE,
+         sub("                endtime = _time() + timeout\n                while self._empty():\n                    remaining = endtime - _time()\n"
+             "                    if remaining <= 0.0:\n                        raise Empty\n                    self.not_empty.wait(remaining)\n",
+             "                if self._empty():\n                    self.not_empty.wait(timeout)\n                    if self._empty():\n                        raise Empty\n"), "C25-R4")
+R.mutant("put-timed-wait-once", QUEUE,
+         sub("                endtime = _time() + timeout\n                while self._full():\n                    remaining = endtime - _time()\n"
+             "                    if remaining <= 0.0:\n                        raise Full\n                    self.not_full.wait(remaining)\n",
+             "                if self._full():\n                    self.not_full.wait(timeout)\n                    if self._full():\n                        raise Full\n"), "C25-R4")
